@@ -186,6 +186,11 @@ def check(case, ctx):
         if custom:
             # a user-supplied flop type, port names, clock net and q suffix
             dp, qp, clkname = "din", "qout", "clock_net"
+            if len(cd["nodes"]) % 2:
+                # the clock net is an existing gate of the circuit (gated clock), not a new input
+                gts = sorted(n for n, t in before.types.items() if t in G.ALL_GATES)
+                clkname = gts[len(cd["edges"]) % len(gts)]
+                ctx.count("insert_registers_clock_is_existing_gate")
             kw = dict(ff=cg.BlackBox("myff", ["ck", "din", "en"], ["qout", "qn"]), d_port=dp, q_port=qp, other_flop_io={clkname: "ck"}, q_suffix="_r_")
             ctx.count("insert_registers_custom_flop")
         ok, r = ctx.call(cg.tx.insert_registers, c, stages, **kw)
@@ -274,7 +279,7 @@ def gates(counters, table, tier):
         n = counters.get(f"regrouped:{t}:odd", 0) + counters.get(f"regrouped:{t}:even", 0)
         if n < 20:
             out.append(f"{t} regrouped only {n} times")
-    for k in ("regrouped:xor:odd", "regrouped:xor:even", "regrouped:xnor:odd", "regrouped:xnor:even", "fanout_split", "registers_inserted", "insert_registers_custom_flop", "cmp:acyclic_unroll", "class:pins"):
+    for k in ("regrouped:xor:odd", "regrouped:xor:even", "regrouped:xnor:odd", "regrouped:xnor:even", "fanout_split", "registers_inserted", "insert_registers_custom_flop", "insert_registers_clock_is_existing_gate", "cmp:acyclic_unroll", "class:pins"):
         if counters.get(k, 0) < 5:
             out.append(f"{k} seen {counters.get(k, 0)} times")
     return out
